@@ -13,6 +13,10 @@ UNITS = {
     'P128': dict(SSO, new_block=128, gen_defs=['VERIF_NEW_POOL=8']),
     'P256': dict(SSO, new_block=256, gen_defs=['VERIF_NEW_POOL=8']),
     'X128': dict(wrap='wrap.cc', new_block=128, ir2c_flags=OPT),
+    # R: as P plus the reserve-ahead vector growth model vec_reserve.c (used where pieces are pushed conditionally)
+    'R': dict(SSO, new_block=64, gen_defs=['VERIF_NEW_POOL=8', 'VERIF_VEC_CAP=8'], extra_c=['sso_bound.c', 'vec_reserve.c'],
+              cuts=SSO['cuts'] + ['^_ZNKSt6vectorINSt7__cxx1112basic_stringIcSt11char_traitsIcESaIcEEESaIS5_EE12_M_check_lenEmPKc$', '^_ZNKSt6vectorIcSaIcEE12_M_check_lenEmPKc$',
+                                  '^_ZNSt12_Vector_baseINSt7__cxx1112basic_stringIcSt11char_traitsIcESaIcEEESaIS5_EE1[13]_M_(de)?allocateE', '^_ZNSt12_Vector_baseIcSaIcEE1[13]_M_(de)?allocateE']),
 }
 BOUNDS = ''
 STUBS = []
@@ -45,11 +49,11 @@ def queries(tier):
                     'len(s) == %d' % L, backend='cadical', mem_gb=10))
     for L in ([0, 1, 2, 3] if quick else [0, 1, 2, 3, 4]):
         for mode in (0, 1):
-            qs.append(Q('splitctx_%s_len%d' % (('ref', 'join')[mode], L), punit(L + 1), 'h_splitctx.c', {'LEN': L, 'MODE': mode}, L + 2,
+            qs.append(Q('splitctx_%s_len%d' % (('ref', 'join')[mode], L), 'R', 'h_splitctx.c', {'LEN': L, 'MODE': mode}, L + 2,
                         'split_context on %d symbolic bytes, symbolic delimiter and max_splits vs reference bracket/quote scanner: ' % L + ('exact pieces / runtime_error iff unbalanced' if mode == 0 else 'phosg join inverts it when accepted'),
                         'len(s) == %d, all byte values, all delimiters, max_splits in [0,%d]' % (L, L + 1)))
     for L in ([0, 1, 2, 3] if quick else [0, 1, 2, 3, 4, 5]):
-        qs.append(Q('splitargs_len%d' % L, punit((L + 1) // 2 + 1), 'h_splitargs.c', {'LEN': L}, L + 2,
+        qs.append(Q('splitargs_len%d' % L, 'R', 'h_splitargs.c', {'LEN': L}, L + 2,
                     'split_args on %d symbolic bytes vs reference shell-style tokenizer: exact arguments / runtime_error iff incomplete escape or open quote' % L, 'len(s) == %d, all byte values' % L))
     names = ['trailing_zeroes', 'trailing_ws', 'leading_ws', 'ws', 'comments']
     for which in range(5):
